@@ -19,7 +19,7 @@ import (
 // universe of paths around the byte order of '/' (same as the CLI part of C06/C07)
 var c06Universe = []string{
 	"d", "d-old", "d.c", "d d", "d0", "ad", "da", "d/x", "d/y z", "d/sub/f", "ad/x", "a/d/x", "d-old/x", "d.c/y",
-	"a(b", "a(b/x", "a+b/x", "a.b/x", "aXb/x", "[x]/y", "test/a", "test.c", "test-data", "test0", "lib/m.go", "lib.go", "lib-old", "x",
+	"a(b", "a(b/x", "a+b/x", "a.b/x", "aXb/x", "[x]/y", "test/a", "test.c", "test-data", "test0", "lib/m.go", "lib.go", "lib-old", "x", "d/X", "D", "D/x", "Lib.go",
 	"a*b/x", "a|b", "^s/x", "e$", "{k}/v", "q?/r",
 }
 
